@@ -302,7 +302,7 @@ FLOATS = [0.0, -0.0, 0.5, 1.5, -2.25, 0.1, 1 / 3, 1e16, 1e22, 1e-7, 1.5e-7, 5e-3
           123456789012345678.0, float("inf"), float("-inf"), float("nan"), 2.0 ** 53, 3.141592653589793]
 INTS = [0, 1, -1, 7, 9, 10, -10, 99, 100, 255, 256, -32768, 65535, 2 ** 31, -2 ** 63, 2 ** 64, 10 ** 30, -(10 ** 30) + 1]
 TEXT_ALPHA = [0x61, 0x3A, 0x31, 0x2C, 0x23, 0x7E, 0x5D, 0x20, 0x00, 0x7F, 0x80, 0xE9, 0x7FF, 0x800, 0x20AC, 0xD7FF,
-              0xE000, 0xFFFD, 0xFFFF, 0x10000, 0x1F600, 0x10FFFF, 0x3C0]
+              0xE000, 0xFFFD, 0xFFFF, 0x10000, 0x1F600, 0x10FFFF, 0x3C0, 0xFEFF, 0xFFFE]
 KEY_ALPHA = [0x61, 0x62, 0x3A, 0x31, 0x2C, 0x7E, 0x20, 0x7F, 0x00, 0x5F]
 
 
@@ -323,6 +323,9 @@ def gen_text(rng, big=False, bad=False):
     n = rng.choice(BIG_LENS if big else EDGE_LENS)
     cps = [rng.choice(TEXT_ALPHA) if rng.random() < 0.8 else rng.randrange(0x110000) for _ in range(n)]
     cps = [c if is_scalar(c) else 0x41 for c in cps]
+    if rng.random() < 0.12:
+        # text that BEGINS with U+FEFF (a byte order mark to codecs that strip one) is ordinary text here
+        cps = [0xFEFF] + cps[1:]
     if bad and cps:
         cps[rng.randrange(len(cps))] = rng.choice([0xD800, 0xDBFF, 0xDC00, 0xDFFF])
     return cps
@@ -408,7 +411,8 @@ def small_values():
               + [float_json(x) for x in (0.5, -0.0, 1e22, float("nan"), float("inf"))]
               + [["b", True], ["b", False], ["n"]]
               + [["y", b.hex()] for b in (b"", b"0", b":", b",", b"~", b"]", b"12", b"3:a,", b"0:~", b"10:", b"\x00\xff")]
-              + [["t", cps] for cps in ([], [0x61], [0xE9], [0x20AC], [0x1F600], [0x31, 0x3A], [0x61, 0x3C0, 0x2C])])
+              + [["t", cps] for cps in ([], [0x61], [0xE9], [0x20AC], [0x1F600], [0x31, 0x3A], [0x61, 0x3C0, 0x2C],
+                                          [0xFEFF], [0xFEFF, 0x61])])
     for v in leaves:
         yield v
     yield ["L", []]
@@ -541,6 +545,16 @@ class C20(Suite):
             for label, chunks in chunkings(rng, data, tier, every=(i % 2 == 0)):
                 yield {"op": "stream", "chunks": [c.hex() for c in chunks], "vals": vals, "tail": hx(tail),
                        "ignore": hx(ignore), "seps": [hx(sp) for sp in seps]}
+        # every small-scope leaf of a supported type as one streamed message (whole and bytewise), then a second one
+        for v in small_values():
+            if v[0] in ("L", "D"):
+                break
+            if not supported_by_stream(v):
+                continue
+            data = tnetstrings.dump(to_py(v))
+            for chunks in ([data], [data[j:j + 1] for j in range(len(data))], [data + data[:2]]):
+                yield {"op": "stream", "chunks": [c.hex() for c in chunks], "vals": [v], "tail": hx(b"".join(chunks)[len(data):]),
+                       "ignore": "-", "seps": ["-"]}
         # the empty stream
         yield {"op": "stream", "chunks": [], "vals": [], "tail": "-", "ignore": "-", "seps": []}
         # --- malformed: exhaustive short strings
